@@ -402,34 +402,17 @@ def run_op(name):
     return rd, (before == after) or ("inplace" in flags), short
 
 
-def scribble(res, depth=0):
+from mc.hist import scribble as _scribble_buffers, scramble_shallow  # noqa: E402
+
+
+def scribble(res):
     """the caller owns what a codec call returns: overwrite every mutable buffer in the result in place (after it was digested),
-    so that a cached / shared object handed out by the library shows up as history dependence of a later call"""
+    and write into the buffers / lists that a returned object owns, so that a cached / shared object handed out by the library
+    shows up as history dependence of a later call"""
+    _scribble_buffers(res)
     try:
-        if isinstance(res, bitarray):
-            res.invert()
-            res.extend("1011")
-        elif isinstance(res, bytearray):
-            for i in range(len(res)):
-                res[i] ^= 0xFF
-            res.extend(b"\xa5")
-        elif isinstance(res, list) and depth < 3:
-            for x in res:
-                scribble(x, depth + 1)
-            res.append("scribble")
-        elif isinstance(res, dict) and depth < 3:
-            for x in list(res.values()):
-                scribble(x, depth + 1)
-            res["scribble"] = 1
-        elif isinstance(res, tuple) and depth < 3:
-            for x in res:
-                scribble(x, depth + 1)
-        elif type(res).__module__ == "numpy" and hasattr(res, "fill"):
-            res.fill(1)
-        elif type(res).__name__ == "array" and hasattr(res, "typecode"):
-            for i in range(len(res)):
-                res[i] = 1
-    except Exception:  # noqa: BLE001  (read-only results are fine)
+        scramble_shallow(res)
+    except Exception:  # noqa: BLE001
         pass
 
 
